@@ -37,11 +37,11 @@ ASSUMPTIONS = [
     "ConnectionPool: the instant a released connection is handed to a waiter (on_acquire callback during release) is the grant; the waiter notices at its next poll; time-out accuracy is not judged",
     "ConnectionPool total_connections may or may not count connections that are still being set up (both accepted): active+idle <= total <= active+idle+in_setup",
     "Bulkhead / ThreadPool are driven through events; the scripted target logs start and end of service",
-    "spin guard: more than 20000 deliveries at one clock value (legal workloads here need < 1500) is the verdict 'waiting consumes simulated activity and the clock cannot advance'",
+    "spin guard: more than 8000 deliveries at one clock value (the largest count measured on any legal run of these workloads, including the finite zero-delay polling of the unfixed tree, is 122) is the verdict 'waiting consumes simulated activity and the clock cannot advance'",
     "a total event budget hit is labelled inconclusive, never a violation",
 ]
 
-SPIN_CAP = 20000
+SPIN_CAP = 8000
 
 
 class Once:
